@@ -90,7 +90,29 @@ Inductive reply :=
 | RInscription (e : entry) (charms : N) (child_count : N) (children : list N) (next : option N)
                (parents : list N) (previous : option N) (value : option N)
 | ROutput (ins : option (list N)) (value : N)
-| RSat (ins : list N) (sp : option (N * N)).
+| RSat (ins : list N) (sp : option (N * N))
+| ROutputR (ins : option (list N)) (value : N) (runes : option (list (N * N)))   (* output with its rune balances *)
+| ROutputs (l : list (N * (option (list N) * (N * option (list (N * N)))))).      (* /outputs/<address> *)
+
+(* what outputs hold besides inscriptions, and which outputs an address owns (needs --index-addresses and
+   --index-runes; [h_index] says whether the state was indexed with both) *)
+Record holdings := mkH {
+  h_index : bool;
+  h_addresses : list (list N);          (* SCRIPT_PUBKEY_TO_OUTPOINT of the addresses of interest: outpoint indexes *)
+  h_runes : list (N * list (N * N))     (* OUTPOINT_TO_RUNE_BALANCES: outpoint index -> (rune index, amount) *)
+}.
+
+Definition rune_balances (h : holdings) (o : N) : list (N * N) :=
+  match assoc_N o (h_runes h) with Some l => l | None => [] end.
+(* Index::get_rune_balances_for_output: None without a rune index *)
+Definition runes_view (h : holdings) (o : N) : option (list (N * N)) :=
+  if h_index h then Some (rune_balances h o) else None.
+Definition address_ops (h : holdings) (a : N) : list N := nth (N.to_nat a) (h_addresses h) [].
+
+(* the `type` query parameter of /outputs/<address> *)
+Inductive otype := TAny | TCardinal | TInscribed | TRunic.
+
+Definition is_nil {A} (l : list A) : bool := match l with [] => true | _ => false end.
 
 Definition PAGE : N := RECURSIVE_PAGE_SIZE.
 
@@ -231,6 +253,49 @@ Section Api.
            | Some v => ROutput (Some (inscriptions_on_output x)) v
            end
     end.
+
+  (* Server::outputs_address: classification of an output by what it holds; an output holding both
+     inscriptions and runes is listed under `inscribed` and under `runic` *)
+  Definition holds_inscriptions (t : tables) (o : N) : bool :=
+    match op_of t o with Some x => negb (is_nil (inscriptions_on_output x)) | None => false end.
+  Definition holds_runes (h : holdings) (o : N) : bool := negb (is_nil (rune_balances h o)).
+  Definition in_class (t : tables) (h : holdings) (ty : otype) (o : N) : bool :=
+    match ty with
+    | TAny => true
+    | TCardinal => andb (negb (holds_inscriptions t o)) (negb (holds_runes h o))
+    | TInscribed => holds_inscriptions t o
+    | TRunic => holds_runes h o
+    end.
+  Definition class_list (t : tables) (h : holdings) (a : N) (ty : otype) : list N :=
+    filter (in_class t h ty) (address_ops h a).
+
+  (* Index::get_output_info for every listed output; a missing transaction is a 404 *)
+  Fixpoint output_views (t : tables) (h : holdings) (os : list N)
+    : option (list (N * (option (list N) * (N * option (list (N * N)))))) :=
+    match os with
+    | [] => Some []
+    | o :: r =>
+      match output_json t o, output_views t h r with
+      | ROutput ins v, Some vs => Some ((o, (ins, (v, runes_view h o))) :: vs)
+      | _, _ => None
+      end
+    end.
+
+  (* [ty] = None: a `type` value the route does not accept (query extractor rejection) *)
+  Definition outputs_address (t : tables) (h : holdings) (a : N) (ty : option otype) : reply :=
+    match ty with
+    | None => R400
+    | Some ty =>
+      if negb (h_index h) then R404 else
+      match output_views t h (class_list t h a ty) with
+      | Some vs => ROutputs vs
+      | None => R404
+      end
+    end.
+
+  (* /output/<outpoint> and /r/utxo/<outpoint> with the `runes` field *)
+  Definition with_runes (h : holdings) (o : N) (r : reply) : reply :=
+    match r with ROutput ins v => ROutputR ins v (runes_view h o) | _ => r end.
 
   (* r::utxo *)
   Definition utxo_json (t : tables) (o : N) : reply :=
@@ -384,6 +449,54 @@ Definition wr_rel (e : entry) : list Z :=
   [zN (N.land (e_charms e) CHARM_MASK); zN (e_fee e); zN (e_height e); zN (e_seq e); e_number e; zN (e_op e)] ++
   wr_optN (e_sat e) ++ [zN (e_op e); zN (e_off e); zN (e_ts e)].
 
+Definition wr_runes (rs : option (list (N * N))) : list Z :=
+  match rs with
+  | None => [0%Z]
+  | Some l => 1%Z :: zN (len l) :: flat_map (fun p => [zN (fst p); zN (snd p)]) l
+  end.
+
+Fixpoint rd_lists (n : nat) (l : list Z) : list (list N) * list Z :=
+  match n with
+  | O => ([], l)
+  | S k =>
+    match l with
+    | cnt :: r0 => let '(xs, r1) := rd_list (Z.to_nat cnt) r0 in
+                   let '(ls, r2) := rd_lists k r1 in (xs :: ls, r2)
+    | _ => ([], [])
+    end
+  end.
+
+Fixpoint rd_balances (n : nat) (l : list Z) : list (N * list (N * N)) * list Z :=
+  match n with
+  | O => ([], l)
+  | S k =>
+    match l with
+    | o :: cnt :: r0 => let '(ps, r1) := rd_pairs (Z.to_nat cnt) r0 in
+                        let '(bs, r2) := rd_balances k r1 in ((nZ o, ps) :: bs, r2)
+    | _ => ([], [])
+    end
+  end.
+
+Definition rd_holdings (l : list Z) : holdings * list Z :=
+  match l with
+  | ix :: na :: r0 =>
+    let '(ads, r1) := rd_lists (Z.to_nat na) r0 in
+    match r1 with
+    | nb :: r2 => let '(bs, r3) := rd_balances (Z.to_nat nb) r2 in (mkH (negb (ix =? 0)%Z) ads bs, r3)
+    | _ => (mkH false [] [], [])
+    end
+  | _ => (mkH false [] [], [])
+  end.
+
+Definition otype_of_code (c : Z) : option otype :=
+  match c with
+  | 0%Z | 1%Z => Some TAny
+  | 2%Z => Some TCardinal
+  | 3%Z => Some TInscribed
+  | 4%Z => Some TRunic
+  | _ => None
+  end.
+
 Definition wr_reply (r : reply) : list Z :=
   match r with
   | R400 => [400%Z] | R404 => [404%Z] | R500 => [500%Z] | RPanic => [(-2)%Z]
@@ -395,13 +508,19 @@ Definition wr_reply (r : reply) : list Z :=
     200%Z :: zN ch :: zN cc :: wr_ids kids ++ [zN (e_fee e); zN (e_height e); zN (e_seq e)] ++ wr_optN next ++
     [e_number e] ++ wr_ids ps ++ wr_optN prev ++ wr_optN (e_sat e) ++ [zN (e_op e); zN (e_off e); zN (e_ts e)] ++ wr_optN v
   | ROutput ins v => 200%Z :: match ins with Some l => 1%Z :: wr_ids l | None => [0%Z] end ++ [zN v]
+  | ROutputR ins v rs => 200%Z :: match ins with Some l => 1%Z :: wr_ids l | None => [0%Z] end ++ [zN v] ++ wr_runes rs
+  | ROutputs l =>
+    200%Z :: zN (len l) ::
+    flat_map (fun x => let '(o, (ins, (v, rs))) := x in
+                       zN o :: match ins with Some l => 1%Z :: wr_ids l | None => [0%Z] end ++ [zN v] ++ wr_runes rs) l
   | RSat ins sp => 200%Z :: wr_ids ins ++ match sp with Some (o, off) => [1%Z; zN o; zN off] | None => [0%Z] end
   end.
 
 Definition run_C18 (inp : list Z) : list Z :=
   match inp with
   | _seed :: _isats :: _nchildren :: _nplain :: r0 =>
-    let '(t, r1) := rd_tables r0 in
+    let '(t, r1') := rd_tables r0 in
+    let '(h, r1) := rd_holdings r1' in
     match r1 with
     | op :: a :: r2 =>
       let pg := match r2 with hp :: p :: _ => if (hp =? 0)%Z then 0 else nZ p | _ => 0 end in
@@ -417,7 +536,9 @@ Definition run_C18 (inp : list Z) : list Z :=
          | 7%Z => r_inscription true t (nZ a)
          | 8%Z => block_page t (nZ a) pg
          | 9%Z => inscription_json t (if (second =? 0)%Z then Some (nZ a) else number_to_seq t a)
-         | 10%Z => output_json t (nZ a)
+         | 10%Z => with_runes h (nZ a) (output_json t (nZ a))
+         | 13%Z => with_runes h (nZ a) (utxo_json t (nZ a))
+         | 14%Z => outputs_address t h (nZ a) (otype_of_code second)
          | 11%Z => sat_json true t (nZ a)
          | 12%Z => children_page true t SERVER_PAGE_SIZE (nZ a) pg
          | _ => utxo_json t (nZ a)
